@@ -29,15 +29,15 @@ CLAIMS = {
          "Decides cursor monotonicity, that positions are cursor-or-NoPos, base-relative strictly growing line offsets, append-only comments, file registration covering all positions; rank equality with a re-parse is not decided. Two known defects, listed as three findings (Extras post-pass at its two sites, TypeSpec alias order).", "4 C12"),
  "C13": ("case-by-case comparison of dst.Walk with go/ast.Walk (GOROOT source) and the dst struct definitions",
          "Decides the whole statement by structural induction over Walk's cases.", "4 C13"),
- "C14": ("child-table agreement apply/Walk/struct + normal-form equality of the fork with astutil v0.1.12",
-         "Same code as upstream modulo the node table, which is checked semantically; a behaviour-preserving rewrite of a forked function is reported (stated limitation).", "4 C14"),
+ "C14": ("child-table agreement apply/Walk/struct + equality of canonical forms of the fork and astutil v0.1.12 (meaning-preserving rewrites applied to both sides: helper inlining under an argument discipline, guard/nesting, negation, if-initialiser hoisting, named results, pure locals, slice bounds, alpha-renaming)",
+         "Same code as upstream modulo the node table, which is checked semantically, and modulo the canonical rewrites; a behaviour-preserving rewrite outside them (e.g. another defer/recover structure) is still reported (stated limitation).", "4 C14"),
  "C15": ("path-condition rules on ParseFile (nil file never decorated, parse error always reported), nil-result and nil-file rules, resolver file-argument provenance, optional-child guards taken from go/ast.Walk, assertion and coverage rules, map-allocation rule, index proofs (loop-bounded, constant-bounded) with a small inventory, classified inventory of explicit panic sites",
          "Decides the type- and nil-related panic sources for all inputs; the positional 'no decoration found' panics in link() are not decided (new unclassified panic sites are reported as undecided).", "4 C15"),
  "C16": ("lockset analysis over mutex-guarded fields (with caller-holds inference), global-write and goroutine/channel scan, map-iteration order classification with propositional comparator totality (all pairs of returns; comparator functions and multi-statement literals; parallel-slice reads rejected), cache-completeness rule, store classification by declaring package",
          "Decides race-freedom of dst's own shared state (resolver cache, package-level tables) and absence of map-order dependence in the in-scope packages; the standard library's internals are trusted.", "4 C16"),
  "C17": ("error-discipline rule over all error-returning call sites + store classification + CFG reachability in updateImports (no store before an error return)",
          "Decides that resolver/parse errors surface and that no tree is modified on a failing path; retry equality follows only together with C16.", "4 C17"),
- "C18": ("ordering analysis of the four object/scope converters (memo lookup, registration before recursion, field and type-switch-arm completeness) + normal-form equality of resolve.go/scope.go with GOROOT go/ast modulo position erasure",
+ "C18": ("ordering analysis of the four object/scope converters (memo lookup, registration before recursion, field and type-switch-arm completeness) + canonical-form equality of resolve.go/scope.go with GOROOT go/ast modulo position erasure (same canonical rewrites as C14)",
          "Decides the structural conditions under which the memoised conversion is a graph isomorphism and that the package builder is upstream's code without positions; concrete graphs are not evaluated.", "4 C18"),
  "C19": ("abstract interpretation of the five list methods over a two-atom sequence domain with emptiness facts from branch conditions and capacity-clipped slices, plus an array-segment domain with symbolic bounds for in-place updates (copy / re-slice of the receiver's array)",
          "Decides list semantics and non-aliasing for every call sequence (methods are functions of old contents and argument).", "4 C19"),
